@@ -268,6 +268,9 @@ func Materialise(tx *TxnSpec, base uint64, cfg CfgSpec, committed *State) ([]Ref
 			if rec.Target == "" {
 				rec.Target = "refs/heads/target"
 			}
+			if r.TargetLen > len(rec.Target) {
+				rec.Target += "/" + strings.Repeat("t", r.TargetLen-len(rec.Target)-1)
+			}
 		}
 		refs = append(refs, rec)
 	}
